@@ -23,6 +23,7 @@ import (
 	"github.com/prometheus/client_golang/prometheus"
 	"github.com/sirupsen/logrus"
 	"pgregory.net/rapid"
+	"verif.local/vcommon/nearmd5"
 	"verif.local/vcommon/ref"
 	"verif.local/vcommon/stats"
 )
@@ -93,9 +94,64 @@ func TestVerifC12BalancerRanking(t *testing.T) {
 			n = rapid.IntRange(2, 32).Draw(t, "nAny")
 		}
 		mode := rapid.SampledFrom([]int{0, 0, 0, 0, 1, 2, 2}).Draw(t, "uuidMode")
+		// hashes first (round 2): the directed near-collisions below are searched
+		// for a given hash
+		var hashes []string
+		seenHash := map[string]bool{}
+		var groups []nearmd5.Group
+		var dirLabels []string
+		plan := rapid.SampledFrom([]string{"", "", "", "", "", "", "search", "search", "search", "pinned"}).Draw(t, "directed")
+		if plan == "pinned" {
+			g := nearmd5.DrawPinned(t, "dp", mode)
+			if err := (nearmd5.PinnedPair{Hash: g.Hash, Hex: g.Hex, A: g.Keys[0], B: g.Keys[1]}).Verify(); err != nil {
+				t.Fatalf("VERIF-INFRA: %v", err)
+			}
+			groups = append(groups, g)
+			hashes = append(hashes, g.Hash)
+			seenHash[g.Hash] = true
+			dirLabels = append(dirLabels, "directed:precomputed-pair")
+		}
+		nh := rapid.IntRange(1, 3).Draw(t, "nhashes")
+		for j := len(hashes); j < nh; j++ {
+			h := c12Hash(t, fmt.Sprintf("hash%d", j))
+			if !seenHash[h] {
+				seenHash[h] = true
+				hashes = append(hashes, h)
+			}
+		}
+		if plan == "search" {
+			// 2-3 servers whose weights for one of the hashes share their first
+			// 4-8 hex digits and differ later
+			g := nearmd5.DrawGroup(t, "ds", hashes[rapid.IntRange(0, len(hashes)-1).Draw(t, "dirHash")], mode)
+			if len(g.UUIDs) >= 2 && g.Shared < g.Hex {
+				t.Fatalf("VERIF-INFRA: near-collision search returned weights %v that share %d < %d hex digits", g.Weights, g.Shared, g.Hex)
+			}
+			if len(g.UUIDs) >= 2 {
+				groups = append(groups, g)
+				dirLabels = append(dirLabels, "directed:searched-group")
+			} else {
+				dirLabels = append(dirLabels, "directed:search-ran-out-of-budget")
+			}
+		}
 		taken := map[string]bool{}
 		var uuids []string
-		for i := 0; i < n; i++ {
+		for _, g := range groups {
+			for _, u := range g.UUIDs {
+				if !taken[c12Key(u)] && !taken["uuid:"+u] {
+					taken[c12Key(u)] = true
+					taken["uuid:"+u] = true
+					uuids = append(uuids, u)
+				}
+			}
+			dirLabels = append(dirLabels, fmt.Sprintf("directed:group-of-%d", len(g.UUIDs)))
+			if stats.WantSample("directed near-collision") {
+				stats.Sample("directed near-collision", map[string]interface{}{"hash": g.Hash, "uuids": g.UUIDs, "weights": g.Weights, "shared_hex_digits": g.Shared, "candidates_tried": g.Tried})
+			}
+		}
+		if n < len(uuids) {
+			n = len(uuids)
+		}
+		for i := len(uuids); i < n; i++ {
 			var u string
 			for tries := 0; ; tries++ {
 				if mode == 0 || (mode == 2 && rapid.Bool().Draw(t, fmt.Sprintf("s%dis27", i))) {
@@ -114,15 +170,8 @@ func TestVerifC12BalancerRanking(t *testing.T) {
 			taken["uuid:"+u] = true
 			uuids = append(uuids, u)
 		}
-		nh := rapid.IntRange(1, 3).Draw(t, "nhashes")
-		var hashes []string
-		seenHash := map[string]bool{}
-		for j := 0; j < nh; j++ {
-			h := c12Hash(t, fmt.Sprintf("hash%d", j))
-			if !seenHash[h] {
-				seenHash[h] = true
-				hashes = append(hashes, h)
-			}
+		if len(groups) > 0 && rapid.Bool().Draw(t, "shuffleSet") {
+			uuids = rapid.Permutation(uuids).Draw(t, "setOrder")
 		}
 		sharedDevIDs := rapid.Bool().Draw(t, "deviceIDs")
 
@@ -207,6 +256,21 @@ func TestVerifC12BalancerRanking(t *testing.T) {
 		}
 
 		labels := []string{fmt.Sprintf("uuids=%s", [...]string{"all-27", "all-other-length", "mixed"}[mode]), fmt.Sprintf("hashes=%d", len(hashes))}
+		labels = append(labels, dirLabels...)
+		{
+			// measured on the set itself: the longest weight prefix two servers share for one of the hashes
+			keys := make([]string, len(uuids))
+			for i, u := range uuids {
+				keys[i] = c12Key(u)
+			}
+			best := 0
+			for _, h := range hashes {
+				if c := nearmd5.MaxSharedPrefix(h, keys); c > best {
+					best = c
+				}
+			}
+			labels = append(labels, "balancer:longest-common-weight-prefix="+nearmd5.PrefixBucket(best))
+		}
 		switch {
 		case n <= 4:
 			labels = append(labels, "n=2-4")
